@@ -156,6 +156,30 @@ def characterize_rule(ctx, rule: str):
             break
     r.ob(rule + ".validated-return", fi.qualname, ok, det, fi.where())
     loops = [n for n in fn.body if isinstance(n, ast.For)]
+    # candidates: every direct subclass and -- when it is concrete -- the class itself
+    okc, detc = False, "no candidate loop"
+    if len(loops) == 1 and isinstance(loops[0].iter, ast.Name):
+        cname = loops[0].iter.id
+        srcs = [n.value for n in ast.walk(fn) if isinstance(n, ast.Assign) and any(isinstance(t, ast.Name) and t.id == cname for t in n.targets)]
+        has_sub = any("__subclasses__()" in (fi.module.segment(v) or "") and not isinstance(v, ast.BoolOp) and not isinstance(v, ast.IfExp) for v in srcs)
+        own = False
+        for n in ast.walk(fn):
+            if isinstance(n, ast.Call) and isinstance(n.func, ast.Attribute) and n.func.attr in ("append", "insert") and isinstance(n.func.value, ast.Name) and n.func.value.id == cname \
+                    and n.args and isinstance(n.args[-1], ast.Name) and n.args[-1].id == "cls":
+                # allowed guard: `if not isabstract(cls)` only
+                g = parents.get(id(parents.get(id(n))))
+                if isinstance(g, ast.If):
+                    gs = re.sub(r"\s+", "", fi.module.segment(g.test) or "")
+                    own = gs in ("notisabstract(cls)", "notinspect.isabstract(cls)")
+                elif g is fn:
+                    own = True
+        for v in srcs:
+            s_ = re.sub(r"\s+", "", fi.module.segment(v) or "")
+            if "__subclasses__()" in s_ and ("+[cls]" in s_ or "[cls]+" in s_) and " or " not in (fi.module.segment(v) or ""):
+                own = True
+        okc = has_sub and own
+        detc = "the candidates must be every direct subclass and, when it is concrete, the class itself: subclasses=%s, class itself=%s" % (has_sub, own)
+    r.ob(rule + ".candidates", fi.qualname, okc, detc, fi.where())
     okl = len(loops) == 1 and not any(isinstance(x, (ast.Break, ast.Continue)) for x in ast.walk(loops[0]))
     r.ob(rule + ".all-candidates", fi.qualname, okl, "every candidate must be tried until one is valid (one loop, no break/continue)", fi.where())
     last = fn.body[-1]
@@ -334,6 +358,57 @@ def case_taint_rule(ctx, rule: str, records):
             raws = _raw_overhangs(t)
             r.ob(rule, "%s#%s:%s" % (where, kind, repr(t)), at_accessor or not raws,
                  "the overhang carried to the next lookup of the walk is not case-normalised: %r" % (t,), where)
+    r.floor(rule, 4)
+
+
+def _norm_signature(t):
+    """how an overhang term is normalised before it is compared: the chain of normaliser ops directly above start()/end()"""
+    sigs = set()
+
+    def walk(x, above):
+        if isinstance(x, Term):
+            if x.op in ("start", "end") and len(x.args) == 1:
+                sigs.add(above)
+                return
+            for a in x.args:
+                walk(a, x.op if x.op in NORMALISERS else (above if x.op in ("reverse_complement",) else ""))
+
+    walk(t, "")
+    return sigs
+
+
+def consistent_equality_rule(ctx, rule: str, records):
+    """C03: the outcome is a function of ONE equality on overhangs.  The
+    vector check, the duplicate detection and the walk must compare overhangs
+    normalised the same way (all raw, or all through the same normaliser);
+    otherwise two overhangs are 'different' for one test and 'equal' for
+    another."""
+    r = ctx.report
+    seen = {}
+    for where, o in records:
+        terms = []
+        for e in o.path.effects:
+            if e[0] == "compare":
+                terms += [("==", e[1]), ("==", e[2])]
+            elif e[0] in ("map-setdefault", "map-get", "map-pop", "map-haskey", "map-getitem", "map-store"):
+                terms.append((e[0][4:], e[2]))
+            elif e[0] == "loop-entry":
+                terms += [("walk-entry", v) for v in e[1].values() if isinstance(v, Term)]
+        if o.kind == "step" and o.env:
+            terms += [("walk-step", v) for k_, v in o.env.items() if isinstance(v, Term) and k_ != "self"]
+        for kind, t in terms:
+            for sig in _norm_signature(t):
+                seen.setdefault(sig, set()).add("%s#%s:%r" % (where, kind, t))
+    if not seen:
+        raise AnalysisError("no overhang comparison found in the assembly kernels")
+    # the majority normalisation is the reference; every other one is reported
+    ref = max(seen, key=lambda s: len(seen[s]))
+    at_accessor = accessor_normalises(ctx)  # then every overhang is already normalised where it is read
+    for sig, sites in sorted(seen.items()):
+        for site in sorted(sites):
+            r.ob(rule, site, at_accessor or sig == ref,
+                 "overhangs are compared %s here but %s elsewhere in the assembly: two overhangs can be equal for one test and different for another (e.g. atgc / ATGC)"
+                 % ("through .%s()" % sig if sig else "as raw, case-sensitive Seq objects", "through .%s()" % ref if ref else "raw"), site.split("#")[0])
     r.floor(rule, 4)
 
 
